@@ -1051,6 +1051,11 @@ func callBuiltin(caller *frame, callpos token.Pos, fn *ssa.Builtin, args []value
 			dst := args[0].([]value)
 			n, okc := concreteLen(r.p)
 			if !okc {
+				// rendered numbers are spelled out (forking over their few feasible values)
+				r = caller.i.ex.concretizeNumbers(r)
+				n, okc = concreteLen(r.p)
+			}
+			if !okc {
 				panic(abortPath{why: "copy from opaque string", kind: "unsupported"})
 			}
 			if n > len(dst) {
